@@ -2,6 +2,7 @@ package catalog
 
 import (
 	"encoding/json"
+	"sort"
 	"strconv"
 
 	jschemaLib "github.com/jsightapi/jsight-schema-go-library"
@@ -44,8 +45,14 @@ func prepareJSightSchema(
 ) (jschemaLib.Schema, error) {
 	s := jschema.New(name, b)
 
-	for n, v := range enumRules {
-		if err := s.AddRule(n, v); err != nil {
+	// Sorted, so that the same document always gets the same diagnostic.
+	ruleNames := make([]string, 0, len(enumRules))
+	for n := range enumRules {
+		ruleNames = append(ruleNames, n)
+	}
+	sort.Strings(ruleNames)
+	for _, n := range ruleNames {
+		if err := s.AddRule(n, enumRules[n]); err != nil {
 			return nil, err
 		}
 	}
